@@ -157,6 +157,42 @@ def replay(case):
         tr.update(kind="any", nin=len(parts), via="interp")
         tr.update(_observe(df, new, rp, len(parts)))
         return tr
+    if kind == "size":
+        # partition_size: RepartitionSize splits big partitions evenly and concatenates neighbours up to the size
+        lens = case["lens"]
+        parts = [[[1000 * p + n, 1000 * p + n] for n in range(lens[p])] for p in range(len(lens))]
+        df = _frame(parts, prof)
+        new = df.repartition(partition_size=case["size"])
+        tr.update(kind="any", nin=len(parts), via="size", lens=lens, size=case["size"],
+                  inputs={f"i{p}": parts[p] for p in range(len(parts))})
+        tr.update(_observe(df, new, prof, len(parts)))
+        return tr
+    if kind == "freq":
+        # freq: RepartitionFreq derives day-aligned divisions and uses the divisions planner
+        from dask_expr import _repartition as R
+        a, iv = case["a"], case["iv"]
+        prof = plans.Profile("datetime")
+        probe = _frame(_uni_parts(a, iv), prof, divisions=a).repartition(freq=case["freq"]).expr.lower_completely()
+        conc = set(prof.enc(v) for v in iv) | set(prof.enc(v) for v in a)
+        if isinstance(probe, R.RepartitionDivisions):
+            conc |= set(probe.new_divisions)
+        rp = plans.RankProfile(sorted(conc), prof)
+        a_r = [rp.dec(prof.enc(v)) for v in a]
+        iv_r = [rp.dec(prof.enc(v)) for v in iv]
+        parts = _uni_parts(a_r, iv_r)
+        df = _frame(parts, rp, divisions=a_r)
+        new = df.repartition(freq=case["freq"])
+        low = new.expr.lower_completely()
+        tr["inputs"] = {f"i{p}": parts[p] for p in range(len(parts))}
+        tr["profile"] = rp.name
+        if isinstance(low, R.RepartitionDivisions):
+            b_r = [rp.dec(v) for v in low.new_divisions]
+            tr.update(kind="div", a=a_r, b=b_r, force=bool(low.force), iv=iv_r, via="freq")
+            tr.update(_observe(df, new, rp, len(parts)))
+            return tr
+        tr.update(kind="any", nin=len(parts), via="freq")
+        tr.update(_observe(df, new, rp, len(parts)))
+        return tr
     raise ValueError(kind)
 
 
@@ -210,6 +246,20 @@ def run(tier="quick", seed=0, replay_path=None):
                 for nout in range(len(c["a"]), t["MaxN"] + 1):
                     for prof in (["int", "float", "datetime"] if tier == "thorough" else [rnd.choice(["int", "float", "datetime"])]):
                         cases.append({"kind": "interp", "a": c["a"], "nout": nout, "iv": iv, "profile": prof})
+        # partition_size: uneven layouts (a partition larger than the size before / after smaller ones, empty ones)
+        pats = [[40, 3, 55], [3, 40, 3, 40], [60, 0, 60], [10, 10, 10, 10], [0, 70, 2, 2, 2], [25, 26, 24], [5], [80], [2, 2, 2, 90, 2]]
+        if tier == "thorough":
+            pats += [[rnd.randrange(0, 90) for _ in range(rnd.randrange(1, 7))] for _ in range(60)]
+        for lens in pats:
+            for size in (200, 400, 800, 3000):
+                cases.append({"kind": "size", "lens": lens, "size": size, "profile": "int"})
+        # freq: day-based divisions on a datetime index
+        seen = set()
+        for c in base:
+            if c["kind"] == "div" and tuple(c["a"]) not in seen and c["a"][-1] != c["a"][0]:
+                seen.add(tuple(c["a"]))
+                for freq in ("1D", "2D", "3D"):
+                    cases.append({"kind": "freq", "a": c["a"], "iv": iv, "freq": freq, "profile": "datetime"})
     for i, c in enumerate(cases):
         c["tid"] = i
     chk.evaluations = len(cases)
